@@ -1031,6 +1031,22 @@ val ent2z : ent -> z list
 
 val dumpload_case : z list -> z list
 
+val table_ids : w -> nat -> nat list
+
+val alive_ids : w -> nat list
+
+val w_dump_entities : w -> edump * nat list
+
+val load_rows :
+  ent list -> nat list -> table -> (nat option * nat) list -> (table * (nat
+  option * nat) list) option
+
+val w_load_entities : (edump * nat list) -> w -> w option
+
+val final_state : bool -> w -> z list list -> w
+
+val dumpload_world : z list list -> z list
+
 val row_ent : table -> nat -> ent
 
 val loc : w -> ent -> (nat * nat) option
